@@ -189,26 +189,39 @@ func SwitchCoverage(fn *ssa.Function, isSubject func(ssa.Value) bool) map[int64]
 // SCCs returns the strongly connected components (with >1 node or a self
 // loop) of the static call graph restricted to funcs.
 func SCCs(funcs []*ssa.Function) [][]*ssa.Function {
+	// nodes: the functions and their closures, each on its own. Edges: static calls, and from a function to
+	// the closures it creates (it may call them, or hand them to something that does). A closure is NOT merged
+	// with its parent: a parent calling its own local closure is not recursion unless the closure calls back.
 	in := map[*ssa.Function]bool{}
+	var nodes []*ssa.Function
 	for _, f := range funcs {
-		in[f] = true
+		for _, ff := range WithClosures(f) {
+			if !in[ff] {
+				in[ff] = true
+				nodes = append(nodes, ff)
+			}
+		}
+	}
+	topOf := func(f *ssa.Function) *ssa.Function {
+		for f.Parent() != nil {
+			f = f.Parent()
+		}
+		return f
 	}
 	succ := func(f *ssa.Function) []*ssa.Function {
 		var out []*ssa.Function
 		seen := map[*ssa.Function]bool{}
-		for _, ff := range WithClosures(f) {
-			for _, c := range CallsIn(ff, nil) {
-				if cal := StaticCallee(c); cal != nil {
-					top := cal
-					for top.Parent() != nil {
-						top = top.Parent()
-					}
-					if in[top] && !seen[top] {
-						seen[top] = true
-						out = append(out, top)
-					}
-				}
+		add := func(g *ssa.Function) {
+			if g != nil && in[g] && !seen[g] {
+				seen[g] = true
+				out = append(out, g)
 			}
+		}
+		for _, c := range CallsIn(f, nil) {
+			add(StaticCallee(c))
+		}
+		for _, an := range f.AnonFuncs {
+			add(an)
 		}
 		return out
 	}
@@ -250,15 +263,21 @@ func SCCs(funcs []*ssa.Function) [][]*ssa.Function {
 				}
 			}
 			if len(comp) > 1 || self {
-				sort.Slice(comp, func(i, j int) bool { return FuncName(comp[i]) < FuncName(comp[j]) })
-				res = append(res, comp)
+				// report by top-level function (a cycle through a closure is the cycle of its parent)
+				seenTop := map[*ssa.Function]bool{}
+				var tops []*ssa.Function
+				for _, w := range comp {
+					if t := topOf(w); !seenTop[t] {
+						seenTop[t] = true
+						tops = append(tops, t)
+					}
+				}
+				sort.Slice(tops, func(i, j int) bool { return FuncName(tops[i]) < FuncName(tops[j]) })
+				res = append(res, tops)
 			}
 		}
 	}
-	for _, f := range funcs {
-		if f.Parent() != nil {
-			continue
-		}
+	for _, f := range nodes {
 		if _, ok := idx[f]; !ok {
 			strong(f)
 		}
